@@ -26,9 +26,9 @@ package http
 // What NewServer/NewStore and package initialisation establish: a store whose cluster-id cell holds a string, a
 // metrics handler, the stream gauge (promauto.NewGauge), (lease.go) a lease is only ever obtained from the
 // configured Leaser, and the subscriber set holds no nil key (only SubscribeChangeSet inserts, fresh objects).
-//@ pred serverWF(s *Server) = s != nil && s.store != nil && storeWF(s.store) && s.promHandler != nil && s.ctx != nil &&
+//@ pred serverWF(s *Server) = s != nil && s.store != nil && storeWF(s.store) && s.store.Exit != nil && s.promHandler != nil && s.ctx != nil &&
 //@      typeis(aload(s.store.clusterID), string) && (s.store.lease != nil ==> s.store.Leaser != nil) &&
-//@      serverStreamCountMetric != nil && !has(s.store.changeSetSubscribers, nil)
+//@      serverStreamCountMetric != nil && litefs.storeDBCountMetric != nil && !has(s.store.changeSetSubscribers, nil)
 
 // The node is the primary right now (store.go: isPrimary).
 //@ pred nodeIsPrimary(s *Server) = s.store.lease != nil
